@@ -2,6 +2,7 @@ package checks
 
 import (
 	"fmt"
+	"strings"
 
 	"github.com/uhn/ggql/pkg/ggql"
 
@@ -110,6 +111,7 @@ func runC08(c *run.Ctx) {
 	petsRequests(c, "c08", c.N(1200, 20000))
 	c08Staged(c)
 	c08Subscription(c)
+	c08BuiltInterface(c)
 }
 
 // petsRequests: binding by the @go directive and by name only (no RegisterType) on cold roots of named Go struct types,
@@ -370,6 +372,76 @@ func stagedHierarchy(c *run.Ctx, pfx string, n int) {
 		if diff := Compare(exp, out, CompareOpts{StripFragSeg: true}); diff != "" {
 			c.Violation(pfx+"-staged-hierarchy", map[string]interface{}{"first_load": sdl1, "later_loads": exts, "late_implementer": x, "graph": describeGraph(g), "document": text,
 				"diff": diff, "expected": exp.Describe(), "observed": out.Describe()})
+		}
+	}
+}
+
+// ---------------------------------------------------------------- an interface built in Go
+
+// C08BThing and C08BOther are bound to the object types of the same names by name.
+type C08BThing struct {
+	ID   string
+	Size int
+}
+type C08BOther struct {
+	ID   string
+	Name string
+}
+type c08BQuery struct {
+	Node  interface{}
+	Nodes []interface{}
+}
+type c08BRoot struct{ Query *c08BQuery }
+
+// c08BuiltInterface: the interface is a *ggql.Interface made in Go and handed to AddTypes (before or after the document
+// that defines its implementers), the object types come from a document and are bound by name. Values behind the
+// interface-typed fields are resolved as their concrete types all the same.
+func c08BuiltInterface(c *run.Ctx) {
+	const sdl = "type Query { node: ZzNode nodes: [ZzNode] }\ntype C08BThing implements ZzNode { id: ID size: Int }\ntype C08BOther implements ZzNode { id: ID name: String }\n"
+	const text = `{ node { __typename id ... on C08BThing { size } ... on C08BOther { name } } nodes { __typename ... on C08BOther { name } ... on ZzNode { id } } }`
+	const want = `{"node":{"__typename":"C08BThing","id":"t1","size":3},"nodes":[{"__typename":"C08BOther","id":"o1","name":"n1"},{"__typename":"C08BThing","id":"t2"},null]}`
+	for variant := 0; variant < 4; variant++ {
+		q := &c08BQuery{Node: &C08BThing{ID: "t1", Size: 3}, Nodes: []interface{}{&C08BOther{ID: "o1", Name: "n1"}, &C08BThing{ID: "t2", Size: 4}, nil}}
+		root := ggql.NewRoot(&c08BRoot{Query: q})
+		mk := func() *ggql.Interface {
+			i := &ggql.Interface{Base: ggql.Base{N: "ZzNode"}}
+			_ = i.AddField(&ggql.FieldDef{Base: ggql.Base{N: "id"}, Type: &ggql.Ref{Base: ggql.Base{N: "ID"}}})
+			return i
+		}
+		var err error
+		how := ""
+		switch variant {
+		case 0, 1:
+			how = "AddTypes(interface), then the document"
+			if err = root.AddTypes(mk()); err == nil {
+				err = root.ParseString(sdl)
+			}
+		default:
+			how = "the document's objects without `implements`, AddTypes(interface), then extend ... implements"
+			if err = root.ParseString(strings.ReplaceAll(strings.ReplaceAll(sdl, " implements ZzNode", ""), "ZzNode", "Int")); err == nil {
+				if err = root.AddTypes(mk()); err == nil {
+					err = root.ParseString("extend type C08BThing implements ZzNode { zzA: Int }\nextend type C08BOther implements ZzNode { zzB: Int }\nextend type Query { zn: ZzNode zns: [ZzNode] }")
+				}
+			}
+		}
+		if err != nil {
+			c.Violation("c08-schema-rejected", map[string]interface{}{"how": how, "error": err.Error()})
+			continue
+		}
+		req, exp := text, want
+		if variant >= 2 {
+			continue // the fields node/nodes are Int-typed in this arrangement: only the loading is exercised
+		}
+		if variant == 1 {
+			_ = root.ResolveString(`{ __type(name: "ZzNode") { possibleTypes { name } } }`, "", nil)
+		}
+		var res map[string]interface{}
+		pv, _ := run.Protect(func() { res = root.ResolveString(req, "", nil) })
+		c.Eval(fmt.Sprintf("built-interface|%d", variant), true)
+		c.Count("static_binding_documents", 1)
+		got := ref.Render(ref.Canon(res["data"]))
+		if pv != nil || res["errors"] != nil || got != exp {
+			c.Violation("c08-static-binding", map[string]interface{}{"how": how, "sdl": sdl, "document": req, "diff": fmt.Sprintf("panic=%v errors=%v", pv, res["errors"]), "expected": exp, "observed": got})
 		}
 	}
 }
